@@ -9,7 +9,7 @@ from props.c01 import materialise
 RULE = ("cases = random datasets (1-7 rows, 1-4 points, all groupings, table and real accuracy utilities) WITHOUT tied "
         "reduced distances (C01 allows any tie order, so presentations may legitimately differ on ties), each run in "
         "up to 8 presentations: rows permuted together with labels and provenance, validation permuted, validation "
-        "duplicated, distances through x->2x+1 and x->x^2, class labels injectively renamed with a changed sort order "
+        "duplicated (half of the real-utility cases re-fit ONE importance object carrying an identity feature pipeline for every presentation), distances through x->2x+1 and x->x^2, class labels injectively renamed with a changed sort order "
         "(accuracy utility), BATCH_DISTANCE_MATRIX_SIZE patched to 1 / 3 / n_train / 2^25 on the staged module; plus "
         "datasets with two interchangeable units. Every presentation is compared with the model, and the presentations "
         "with each other, inside Coq; non-trivial = two units receive different scores; distinct = distinct JSON")
@@ -110,12 +110,12 @@ def gen(rng, tier):
             equal = [[src, new_id]]
             variants = []
         cases.append({"base": ds, "variants": [{"name": v[0], "ds": v[1], "umap": v[2]} for v in variants],
-                      "equal": equal, "seed": rng.randrange(1 << 30)})
+                      "equal": equal, "seed": rng.randrange(1 << 30), "reuse": bool(acc and rng.random() < 0.5)})
     return cases
 
 
 # ----------------------------------------------------------------------------- implementation side
-def run_one(ds):
+def run_one(ds, shared=None):
     import numpy as np
     import datascope.importance.shapley as sh
     old = sh.BATCH_DISTANCE_MATRIX_SIZE
@@ -128,7 +128,7 @@ def run_one(ds):
                       int(sh.get_test_batch_size(7 * ds["n_train"] + 1, 5 * ds["n_test"] + 3))]]
         if ds["utility"] == "accuracy":
             from props.c01 import run_impl as r1
-            out = r1(ds)
+            out = r1(ds, shared=shared)
         else:
             out = {"scores": nn.run_neighbor(ds)}
     finally:
@@ -138,7 +138,10 @@ def run_one(ds):
 
 
 def run_impl(c):
-    return {"base": run_one(c["base"]), "variants": [run_one(v["ds"]) for v in c["variants"]]}
+    # half of the real-utility cases run every presentation through ONE importance object (with an identity feature
+    # pipeline), re-fitted for each presentation: nothing of an earlier fit may survive
+    shared = {} if c.get("reuse") else None
+    return {"base": run_one(c["base"], shared), "variants": [run_one(v["ds"], shared) for v in c["variants"]]}
 
 
 # ----------------------------------------------------------------------------- Coq side
